@@ -125,6 +125,7 @@ type Exec struct {
 	netWriteAt  []*term.T
 	netFailFrom int
 	netAttempts int
+	realDial    bool // the socket constructors of knxnet run for real (on stubbed net.Dial*), not redirected
 	netWrites   [][]*term.T
 	netClosed   int
 	tickers     map[*Object]*Timer
@@ -458,6 +459,7 @@ func (e *Exec) resetPath(prefix []Decision) {
 	e.netStream, e.netDgrams, e.netWrites, e.netCuts, e.netDribble, e.netClosed = nil, nil, nil, 0, false, 0
 	e.netFrom = nil
 	e.netWriteAt, e.netFailFrom, e.netAttempts = nil, -1, 0
+	e.realDial = false
 	for _, d := range prefix {
 		if d.Uncertain {
 			e.uncertain = true
